@@ -593,11 +593,18 @@ pub fn run(out: &mut Out, thorough: bool, seed: u64, extra: &[String]) {
                 out.case(&lhs, &format!("{}-k{}{}", kind, k, if pre % 8 != 0 { "-unaligned" } else { "" }), || run_sampler(kind, &s, pre, n, &moduli));
             }
         }
-        // moduli not above the error bound 21 (known finding: q - |e| underflows)
+        // moduli not above the error bound 21: |e| is reduced mod q first (ordinary cases since the repair of the underflow)
         let s = seed_from(&mut r);
         let moduli = vec![*r.pick(&[2u64, 3, 5, 13, 17, 21]), 1 << 30];
         let lhs = format!("sample_cbd {} 0 64 {}", xofdata(&[(s, sampler_bytes("sample_cbd", 64, 2))]), fl(&moduli));
-        out.case(&lhs, "tiny-modulus", || run_sampler("sample_cbd", &s, 0, 64, &moduli));
+        out.case(&lhs, "small-modulus", || run_sampler("sample_cbd", &s, 0, 64, &moduli));
+        // all moduli small, several components
+        let s = seed_from(&mut r);
+        let k = r.range(1, 6) as usize;
+        let moduli: Vec<u64> = (0..k).map(|_| *r.pick(&[2u64, 3, 4, 5, 7, 11, 13, 16, 17, 19, 20, 21, 22])).collect();
+        let n = *r.pick(&[16usize, 64, 200]);
+        let lhs = format!("sample_cbd {} 3 {} {}", xofdata(&[(s, 3 + sampler_bytes("sample_cbd", n, k))]), n, fl(&moduli));
+        out.case(&lhs, "small-modulus", || run_sampler("sample_cbd", &s, 3, n, &moduli));
     }
     // ---- histories on real contexts: 1..6 coefficient primes (+ special prime where key switching is on), three schemes
     let schemes = [SchemeType::BFV, SchemeType::CKKS, SchemeType::BGV];
@@ -613,9 +620,9 @@ pub fn run(out: &mut Out, thorough: bool, seed: u64, extra: &[String]) {
             if si == k % 3 || thorough { history_real_entropy(out, &cx, &tag, if thorough { 200 } else { 40 }); }
         }
     }
-    // ---- a parameter set the context accepts whose modulus does not exceed the error bound (known finding)
+    // ---- parameter sets the context accepts whose modulus does not exceed the error bound: errors must be reduced, never refused
     {
-        let (n, q) = (2usize, 5u64);
+      for (n, q) in [(2usize, 5u64), (2, 13), (4, 17)] {
         let built = std::panic::catch_unwind(|| {
             let p = EncryptionParameters::new(SchemeType::CKKS).set_poly_modulus_degree(n).set_coeff_modulus(&[Modulus::new(q)]);
             HeContext::new(p, true, SecurityLevel::None)
@@ -628,11 +635,12 @@ pub fn run(out: &mut Out, thorough: bool, seed: u64, extra: &[String]) {
                         Ok(true) => unreduced += 1, Ok(false) => {}, Err(_) => panics += 1,
                     }
                 }
-                verdict(out, panics == 0 && unreduced == 0, &format!("error_sample_below_modulus scheme=CKKS n={} q={} keygen+public_key x300", n, q), "tiny-modulus-context",
+                verdict(out, panics == 0 && unreduced == 0, &format!("error_sample_below_modulus scheme=CKKS n={} q={} keygen+public_key x300", n, q), "small-modulus-context",
                         &format!("{} of 300 public-key generations panicked (q - |e| underflow), {} produced an unreduced coefficient", panics, unreduced));
             }
-            _ => out.raw(&format!("!OK error_sample_below_modulus scheme=CKKS n={} q={} context refused # tiny-modulus-context", n, q)),
+            _ => out.raw(&format!("!OK error_sample_below_modulus scheme=CKKS n={} q={} context refused # small-modulus-context", n, q)),
         }
+      }
     }
     empirical(out, &mut r, thorough);
 }
